@@ -189,6 +189,15 @@ def _set_of_strings(fn: ast.AST, var: str) -> list[list[str]]:
     return out
 
 
+def impl_def(mod: ast.AST, name: str) -> ast.FunctionDef:
+    """the implementation def of a possibly @t.overload-ed module-level function."""
+    found = [n for n in getattr(mod, "body", []) if isinstance(n, ast.FunctionDef) and n.name == name
+             and not any("overload" in ast.unparse(d) for d in n.decorator_list)]
+    if len(found) != 1:
+        raise px.Unsupported(f"expected exactly one implementation of {name}, found {len(found)}")
+    return found[0]
+
+
 def gen() -> None:
     """T1/T2: regenerate coq/C06/Gen.v from http.py, _internal.py, datastructures/auth.py."""
     http = px.load("http.py")
@@ -324,6 +333,40 @@ def gen() -> None:
     if argn != ["start", "stop", "length"]:
         raise px.Unsupported(f"is_byte_range_valid arguments changed: {argn}")
     ibrv = _T2(argn).block(fn.body)
+
+    # statement skeletons of everything the hand-written models stand for (layout, comments and docstrings do not matter);
+    # HOLES are the sub-expressions that are regenerated into Gen.v above (a change there is reported by the translation)
+    holes = {"begin < last_end or last_end < 0": "<GUARD-ORDER>", "begin >= end": "<GUARD-EMPTY>", "begin == 0": "<GUARD-SUFFIX-ZERO>",
+             "last_end < 0": "<GUARD-SUFFIX-AFTER-OPEN>", "{'ascii', 'us-ascii', 'utf-8', 'iso-8859-1'}": "<RFC2231-CHARSETS>",
+             "{'realm', 'domain', 'nonce', 'opaque', 'qop'}": "<DIGEST-QUOTED-KEYS>"}
+    sk = []
+    for name in ("quote_header_value", "unquote_header_value", "dump_options_header", "dump_header", "dump_csp_header", "parse_list_header",
+                 "parse_dict_header", "parse_options_header", "parse_cache_control_header", "parse_csp_header", "parse_set_header",
+                 "parse_if_range_header", "parse_range_header", "parse_content_range_header", "quote_etag", "unquote_etag", "parse_etags",
+                 "parse_date", "http_date", "parse_age", "dump_age"):
+        sk.append(f"## http.{name}\n" + px.skeleton(impl_def(http, name), holes))
+    for name in ("_plain_int", "_dt_as_utc"):
+        sk.append(f"## _internal.{name}\n" + px.skeleton(impl_def(internal, name)))
+    etag_m = px.load("datastructures/etag.py")
+    range_m = px.load("datastructures/range.py")
+    csp_m = px.load("datastructures/csp.py")
+    struct_m = px.load("datastructures/structures.py")
+    for owner, cls, meths in (("etag", px.find_class(etag_m, "ETags"), ("__init__", "to_header")),
+                              ("range", px.find_class(range_m, "IfRange"), ("__init__", "to_header")),
+                              ("range", px.find_class(range_m, "Range"), ("__init__", "to_header")),
+                              ("range", px.find_class(range_m, "ContentRange"), ("__init__", "set", "to_header")),
+                              ("range", px.find_class(range_m, "_CallbackProperty"), ("__get__", "__set__")),
+                              ("cache_control", px.find_class(ccmod, "_CacheControl"), ("__init__", "_get_cache_value", "_set_cache_value", "_del_cache_value", "to_header")),
+                              ("csp", px.find_class(csp_m, "ContentSecurityPolicy"), ("__init__", "to_header")),
+                              ("auth", px.find_class(auth, "Authorization"), ("__init__", "from_header", "to_header")),
+                              ("auth", www, ("__init__", "from_header", "to_header")),
+                              ("structures", px.find_class(struct_m, "HeaderSet"), ("__init__", "to_header"))):
+        for mname in meths:
+            sk.append(f"## datastructures.{owner}.{cls.name}.{mname}\n" + px.skeleton(impl_def(cls, mname), holes))
+    ccp = px.find_def(ccmod, "cache_control_property")
+    ret = [n for n in ast.walk(ccp) if isinstance(n, ast.Return)]
+    sk.append("## datastructures.cache_control.cache_control_property (the property it returns)\n" + "\n".join(ast.unparse(r) for r in ret))
+    px.check_pin("C06", "c06_codecs.txt", "\n".join(sk) + "\n", "statement skeleton of the header codecs")
 
     def codes(s):
         return px.coq_string_codes(s)
@@ -1110,6 +1153,9 @@ def main(chk: Check) -> None:
         "hand-written matchers for _etag_re, _parameter_key_re, _parameter_token_value_re, _charset_value_re, _continuation_re, _plain_int_re "
         "(texts pinned by C06/Gen.v), urllib.request.parse_http_list and urllib.parse.unquote: validated by differential execution",
         "str.strip / Unicode \\s = the interpreter's 29 white-space code points and str.lower on Latin-1 (both re-checked against the interpreter by the translator)",
+        "statement pins tools/pins/c06_codecs.txt (50 function / method skeletons of http.py, _internal.py and the typed header classes; holes where Gen.v regenerates)",
+        "validated differentially only, no pin wanted because it is CPython library code, not werkzeug code: urllib.request.parse_http_list, urllib.parse.unquote, "
+        "base64 / binascii, email.utils (format_datetime, formatdate, parsedate_to_datetime), datetime / timezone arithmetic, str.strip / lower / title / partition / split, int() / str(int), re",
         "int <-> str: Coq's Decimal/DecimalN conversion, with CPython's 4300-digit limit as a model constant (checked at run time)",
         "calendar contract of C06_date_roundtrip (Section variables): datetime <-> UTC field tuple with the constructor inverting the view; "
         "email.utils.format_datetime / parsedate_to_datetime agree with the field codec on the canonical IMF-fixdate form: both checked by the harness on every generated instant",
